@@ -241,6 +241,7 @@ def run(ctx):
                 r_tog.discharged += 1
 
     # ---------------- leftmost / rightmost (used by the all-variants and by the search ranges)
+    quant_rule(ctx, model)
     r_ext = ctx.rule("C13.EXTREME", "TextSelectionSet::leftmost / rightmost return an item with the smallest begin / largest end, for sorted and unsorted sets (all sets up to 3 items over 0..3)")
     from formula import Evaluator, StructVal
     import itertools
@@ -374,3 +375,71 @@ def run(ctx):
                 r_neg.discharged += 1
             if ok_set:
                 r_set.discharged += 1
+
+
+# ---------------------------------------------------------------------- QUANT
+QUANT_ALL = {"Overlaps", "Embeds", "Embedded", "Before", "After"}          # all: every member of B; otherwise: some member of B
+BOUNDARY_ALL = {"Precedes", "Succeeds", "SameBegin", "SameEnd"}            # all: against the extent (leftmost begin, rightmost end) of B
+
+
+def quant_rule(ctx, model):
+    """a selection tested against a set of two selections: the documented quantifier over the pairwise
+    relation (some member / every member / the extent of the set), and negation as its complement"""
+    from formula import OpVal, Unknown, Panic, is_some
+    r = ctx.rule("C13.QUANT", "test_set of a selection against a two-member set is the documented quantifier (some / every member, or the set's extent) over the pairwise relation; negation is its complement")
+    L = 3 if ctx.tier == "quick" else 4
+    ivs = [(b, e) for b in range(L + 1) for e in range(b, L + 1)]
+    fn = model.f_test_set
+    ctx.functions_analysed.add(fn.qual)
+    for op in model.opvalues((None, 1)):
+        v = op.variant
+        allv = bool(op.fields.get("all"))
+        if not (v in QUANT_ALL or v in BOUNDARY_ALL):
+            continue
+        key = "%s{all:%s,negate:%s%s%s}" % (v, fmt(allv), fmt(op.fields.get("negate")), ",limit" if is_some(op.fields.get("limit")) else "", ",ws" if op.fields.get("allow_whitespace") else "")
+        pos = OpVal(v, dict(op.fields, negate=False, all=False)) if "all" in op.fields else op
+        r.obligations += 1
+        bad = None
+        unknown = None
+        n = 0
+        for s in ivs:
+            for r1 in ivs:
+                for r2 in ivs:
+                    if r1 >= r2:
+                        continue
+                    for ws in ((True, False) if op.fields.get("allow_whitespace") else (True,)):
+                        try:
+                            got, _ = model.call(fn, model.interval(*s), [op, [model.interval(*r1), model.interval(*r2)], "RESOURCE"], ws)
+                            if v in BOUNDARY_ALL and allv:
+                                ext = (min(r1[0], r2[0]), max(r1[1], r2[1]))
+                                q, _ = model.pair(pos, s, ext, ws)
+                            else:
+                                p1, _ = model.pair(pos, s, r1, ws)
+                                p2, _ = model.pair(pos, s, r2, ws)
+                                q = (p1 and p2) if allv else (p1 or p2)
+                        except Panic:
+                            continue   # reported by SUB / EXH
+                        except Unknown as u:
+                            unknown = str(u)
+                            break
+                        n += 1
+                        want = (not q) if op.fields.get("negate") else q
+                        if got != want and bad is None:
+                            bad = (s, r1, r2, ws, got, want)
+                    if unknown:
+                        break
+                if unknown:
+                    break
+            if unknown:
+                break
+        r.hit(key, sample={"operator": key, "evaluations": n})
+        if unknown:
+            r.unknown += 1
+            ctx.report(r, "uninterpretable:" + key, "%s cannot be evaluated on two-member sets for %r (%s): obligation not discharged" % (fn.qual, op, unknown), fn.file, fn.line)
+        elif bad:
+            what = "every member" if (allv and v in QUANT_ALL) else ("the extent of the set" if allv else "some member")
+            ctx.report(r, key, "%r on self=%s against the set {%s, %s}%s gives %s, but the pairwise relation quantified over %s gives %s" % (op, bad[0], bad[1], bad[2], "" if bad[3] else " (gap not whitespace)", bad[4], what, bad[5]), fn.file, fn.line,
+                       {"op": repr(op), "self": bad[0], "set": [bad[1], bad[2]]})
+        else:
+            r.discharged += 1
+    ctx.floor(r, r.obligations, 40, "operator values with a documented quantifier")
